@@ -42,3 +42,81 @@ Example C13_applies :
              {| ga_outcome := None; ga_bad_slice := None; ga_has_slices := true; ga_bad_elem := None;
                 ga_dests := GValid |}) = Some (ErrDriver 7).
 Proof. split; [repeat split|vm_compute; reflexivity]. Qed.
+
+(* ------------------------------------------------------------------------
+   The connection pool (Model/Pool.v; proofs in Proofs/PoolProofs.v).
+   Environment fact, checked by the differential run against
+   sql.DB.Stats().InUse: a result set holds its pooled connection from the
+   moment the query is run until the result set is closed; a statement without
+   result set and a failed run hold nothing afterwards.
+   conns_held i = 1 if the iterator's result set exists and is not closed.
+   A call is Query.Get / Query.Run (CGet), Query.GetAll (CGetAll) or an
+   iterator session Query.Iter; ops; Close (CIter), each with the result
+   script the driver plays for it. *)
+From SQLair.Model Require Import Pool.
+From SQLair.Proofs Require Import PoolProofs.
+
+(* When a call returns it holds no connection: for every result script (any
+   rows, a fetch failure at any position, a failing driver close, a run error,
+   a cancelled context, further result sets), every query error, every argument
+   list, every sequence of iterator calls before the final Close. *)
+Theorem C13_call_holds_nothing :
+  forall c, call_fresh c -> call_held c = 0.
+Proof. exact call_holds_nothing. Qed.
+Print Assumptions C13_call_holds_nothing.
+
+(* No sequence of calls, failed or not, can exhaust the pool: with capacity 1
+   (or more) no call ever blocks and the pool ends with nothing in use. *)
+Theorem C13_no_exhaustion :
+  forall cap calls, 1 <= cap -> Forall call_fresh calls ->
+    exists n, pool_run cap calls = Some n /\ n = 0.
+Proof. exact no_exhaustion. Qed.
+Print Assumptions C13_no_exhaustion.
+
+(* the same from any level: the number of connections in use is unchanged by
+   any sequence of calls *)
+Theorem C13_pool_level_invariant :
+  forall cap calls n, n < cap -> Forall call_fresh calls -> pool_run_from cap n calls = Some n.
+Proof. exact pool_level_invariant. Qed.
+Print Assumptions C13_pool_level_invariant.
+
+(* The statement is not vacuous, and "Iterator.Close must be run" is an
+   obligation of the application: Iter; Next over two rows WITHOUT Close holds
+   a connection, the pool of capacity 1 then has 1 in use and every further
+   call that runs a statement blocks; the same session with Close holds none. *)
+Theorem C13_close_is_needed :
+  conns_held (session_no_close None true (RunRows two_rows) [OpNext]) = 1 /\
+  pool_acquire 1 0 true (conns_held (session_no_close None true (RunRows two_rows) [OpNext])) = Some 1 /\
+  (forall c, call_runs c = true -> pool_step 1 1 c = None) /\
+  call_held (CIter None true (RunRows two_rows) [OpNext]) = 0.
+Proof. exact close_is_needed. Qed.
+Print Assumptions C13_close_is_needed.
+
+(* in general: any plain result with at least one row *)
+Theorem C13_abandoned_holds :
+  forall hasout r x rest, reading r -> r_pending r = x :: rest ->
+    conns_held (session_no_close None hasout (RunRows r) [OpNext]) = 1.
+Proof. exact abandoned_holds. Qed.
+Print Assumptions C13_abandoned_holds.
+
+(* a sequence with every kind of failure on a pool of capacity 1 *)
+Example C13_pool_applies :
+  let r := {| r_pending := [{| row_id := 1; row_ok := true |}; {| row_id := 2; row_ok := false |};
+                            {| row_id := 3; row_ok := true |}];
+              r_fail := Some (2, 7); r_close_err := Some 5; r_more := true; r_closed := false;
+              r_lasterr := None; r_hiteof := false; r_ctxdone := false; r_current := None;
+              r_driver_closes := 0 |} in
+  let calls :=
+    [CGet None true (RunRows r) {| g_outcome := None; g_dests := Some GValid |};
+     CGetAll None true (RunRows r)
+       {| ga_outcome := None; ga_bad_slice := None; ga_has_slices := true; ga_bad_elem := None;
+          ga_dests := GValid |};
+     CIter None true (RunRows r) [OpNext; OpCancel; OpGet GValid];
+     CGet (Some (ErrQuery 1)) true (RunErr ErrCtx) {| g_outcome := None; g_dests := None |};
+     CGet None true (RunErr (ErrDriver 3)) {| g_outcome := None; g_dests := Some (GInvalid 1) |};
+     CIter None false (RunResult 3) [OpGet GOutcome]] in
+  Forall call_fresh calls /\ pool_run 1 calls = Some 0.
+Proof.
+  split; [|vm_compute; reflexivity].
+  repeat (constructor; try (unfold call_fresh, fresh_run, fresh_rows; cbn; tauto)).
+Qed.
